@@ -124,21 +124,23 @@ def edit_sm(rng, sf, steps):
                     if rng.random() < .5: setattr(c, f, rand_field(rng))
                 if rng.random() < .5: c.notes = rand_notes(rng)
                 if rng.random() < .3: c.extradata = [rand_extradata(rng) for _ in range(rng.randrange(1, 3))]
-                if op == "addchart" or not sf.charts: sf.charts.append(c)
-                elif op == "insertchart": sf.charts.insert(rng.randrange(len(sf.charts) + 1), c)
-                else: sf.charts[rng.randrange(len(sf.charts))] = c
-                log.append([op])
+                cd = dump_sm_chart(c)
+                if op == "addchart" or not sf.charts: sf.charts.append(c); log.append(["append", cd])
+                elif op == "insertchart":
+                    i = rng.randrange(len(sf.charts) + 1); sf.charts.insert(i, c); log.append(["insert", i, cd])
+                else:
+                    i = rng.randrange(len(sf.charts)); sf.charts[i] = c; log.append(["set", i, cd])
             elif op == "delchart" and sf.charts:
-                sf.charts.pop(rng.randrange(len(sf.charts))); log.append(["delchart"])
+                i = rng.randrange(len(sf.charts)); sf.charts.pop(i); log.append(["pop", i])
             elif op == "reverse":
                 sf.charts.reverse(); log.append(["reverse"])
             elif op == "editchart" and sf.charts:
-                c = rng.choice(sf.charts)
+                i = rng.randrange(len(sf.charts)); c = sf.charts[i]
                 f = rng.choice(["stepstype", "description", "difficulty", "meter", "radarvalues", "notes"])
                 v = rand_notes(rng) if f == "notes" else rand_field(rng)
                 if rng.random() < .5: setattr(c, f, v)
                 else: c[f.upper()] = v
-                log.append(["editchart", f, v])
+                log.append(["field", i, f.upper(), v])
             elif op == "serialize":
                 # the object has been written out (and a chart on its own) before the later edits: a serializer that
                 # remembers anything from an earlier call shows up as a stale text at the end of the script
@@ -146,17 +148,17 @@ def edit_sm(rng, sf, steps):
                 if sf.charts: str(rng.choice(sf.charts))
                 log.append(["serialize"])
             elif op == "extradata_inplace" and sf.charts:
-                c = rng.choice(sf.charts)
+                i = rng.randrange(len(sf.charts)); c = sf.charts[i]
                 if c.extradata:
                     how = rng.choice(["append", "setitem", "pop"])
                     if how == "append": c.extradata.append(rand_extradata(rng))
                     elif how == "setitem": c.extradata[rng.randrange(len(c.extradata))] = rand_extradata(rng)
                     elif len(c.extradata) > 1: c.extradata.pop(rng.randrange(len(c.extradata)))
-                    log.append(["extradata_inplace", how, list(c.extradata)])
+                    log.append(["extra", i, list(c.extradata)])
             elif op == "extradata" and sf.charts:
-                c = rng.choice(sf.charts)
+                i = rng.randrange(len(sf.charts)); c = sf.charts[i]
                 c.extradata = rng.choice([None, [rand_extradata(rng)], [rand_extradata(rng), rand_extradata(rng)]])
-                log.append(["extradata", c.extradata])
+                log.append(["extra", i, None if c.extradata is None else list(c.extradata)])
         except Exception as e:
             log.append(["raised", op, type(e).__name__])
     return log
